@@ -1541,7 +1541,8 @@ class BeliefPropagationWithMessagePassing(Inference):
         ), f"Error computing factor node message for {target_var}. The number of incoming messages must equal the card(CPT) - 1"
 
         if len(incoming_messages) == 0:
-            return cpt
+            # Normalise, as every other message is: the factor may be an unnormalised potential
+            return cpt / np.sum(cpt)
 
         # Ensure that the target var is on the CPT's 0th axis
         target_var_idx = factor.variables.index(target_var)
